@@ -2,11 +2,14 @@
 package c09
 
 import (
+	"bytes"
 	"context"
 	"encoding/json"
+	"errors"
 	"fmt"
 	"io"
 	"log"
+	"net/http/httptest"
 	"os"
 	"sort"
 	"strings"
@@ -231,9 +234,42 @@ var sortNames = map[search.SortType]string{search.CreatedDesc: "-created", searc
 // ---- oracle ----
 
 type runner struct {
-	w  *vw.World
-	ix *vw.Indexed
-	wh uint64
+	w    *vw.World
+	ix   *vw.Indexed
+	wh   uint64
+	http bool // queries go through Handler.ServeHTTP (POST camli/search/query), as the web UI's and pkg/client's do
+}
+
+func (r *runner) httpQuery(q *search.SearchQuery) ([]string, string, error) {
+	body, err := json.Marshal(q)
+	if err != nil {
+		return nil, "", err
+	}
+	req := httptest.NewRequest("POST", "http://verif.invalid/my-search/camli/search/query", bytes.NewReader(body))
+	req.Header.Set("X-Prefixhandler-Pathsuffix", "camli/search/query") // httputil.PathSuffixHeader, set by the PrefixHandler in front of every handler
+	rec := httptest.NewRecorder()
+	r.ix.H.ServeHTTP(rec, req)
+	var res struct {
+		Blobs []struct {
+			Blob string `json:"blob"`
+		} `json:"blobs"`
+		Continue string `json:"continue"`
+		Error    string `json:"error"`
+	}
+	if rec.Code != 200 {
+		return nil, "", fmt.Errorf("HTTP %d %.200q", rec.Code, rec.Body.String())
+	}
+	if err := json.Unmarshal(rec.Body.Bytes(), &res); err != nil {
+		return nil, "", fmt.Errorf("response is not JSON: %v", err)
+	}
+	if res.Error != "" {
+		return nil, "", errors.New(res.Error)
+	}
+	out := make([]string, len(res.Blobs))
+	for i, b := range res.Blobs {
+		out[i] = b.Blob
+	}
+	return out, res.Continue, nil
 }
 
 func (r *runner) modelTime(st search.SortType, ref string) time.Time {
@@ -269,6 +305,9 @@ func (r *runner) modelList(c *search.Constraint, st search.SortType) ([]string, 
 }
 
 func (r *runner) query(q *search.SearchQuery) ([]string, string, error) {
+	if r.http {
+		return r.httpQuery(q)
+	}
 	res, err := r.ix.H.Query(context.Background(), q)
 	if err != nil {
 		return nil, "", err
@@ -400,6 +439,59 @@ func (r *runner) checkAround(c *search.Constraint, st search.SortType, n int, pi
 		return fmt.Sprintf("around=%s (position %d) limit=%d: window [%d,%d) does not contain the pivot", pivot, pos, n, start, start+len(got))
 	}
 	return ""
+}
+
+// TestPagingLargeResultsOverHTTP: one world with more permanodes than the search handler returns in one
+// response at most (1000), massively tied times, paged through the HTTP entry point and in-process with
+// page sizes around and above that cap: the pages must still concatenate to exactly the unlimited list,
+// and an Around window must contain its pivot.
+func TestPagingLargeResultsOverHTTP(t *testing.T) {
+	evid.Check(t, 1, 4, func(t *rapid.T) {
+		n := rapid.IntRange(1030, 1250).Draw(t, "permanodes")
+		w := vw.New()
+		pool := []time.Time{time.Date(2011, 5, 6, 7, 8, 9, 0, time.UTC), time.Date(2011, 5, 6, 7, 8, 9, 500, time.UTC), time.Date(1969, 12, 31, 23, 0, 0, 0, time.UTC), time.Date(2020, 1, 1, 0, 0, 0, 0, time.UTC)}
+		salt := rapid.IntRange(0, 1<<20).Draw(t, "salt")
+		for i := 0; i < n; i++ {
+			p := w.AddPermanode(fmt.Sprintf("big%d-%d", salt, i))
+			w.AddClaim(p, pool[(i*7+salt)%len(pool)], "set-attribute", "title", []string{"Alpha", "Beta"}[i%2])
+		}
+		ix, err := w.Build()
+		if err != nil {
+			t.Fatalf("harness: building the index failed: %v", err)
+		}
+		c := &search.Constraint{Permanode: &search.PermanodeConstraint{}}
+		for _, st := range []search.SortType{search.CreatedDesc, search.LastModifiedDesc} {
+			inproc := &runner{w: w, ix: ix, wh: w.Hash()}
+			L, err := inproc.modelList(c, st)
+			if err != nil {
+				t.Fatalf("%v", err)
+			}
+			full, _, err := inproc.query(&search.SearchQuery{Constraint: c, Sort: st, Limit: -1})
+			if err != nil || !eq(full, L) {
+				t.Fatalf("C09 violated: unlimited query over %d permanodes (sort %s): err=%v, %d results, the model order has %d", n, sortNames[st], err, len(full), len(L))
+			}
+			for _, via := range []bool{false, true} {
+				r := &runner{w: w, ix: ix, wh: w.Hash(), http: via}
+				for _, page := range []int{999, 1000, 1001, rapid.IntRange(1002, n+5).Draw(t, "page")} {
+					evid.R.Eval()
+					evid.R.Label(fmt.Sprintf("large/http=%v/page-size-%s", via, map[bool]string{true: "above-1000", false: "up-to-1000"}[page > 1000]))
+					evid.R.NonTrivial(evid.Hash("large", n, salt, sortNames[st], via, page))
+					if v := r.checkPaging(c, st, page, L); v != "" {
+						t.Fatalf("C09 violated (%d permanodes, sort %s, over HTTP: %v): %s", n, sortNames[st], via, v)
+					}
+				}
+				pivot := L[rapid.IntRange(0, len(L)-1).Draw(t, "pivot")]
+				for _, lim := range []int{1000, 2001, 2 * n} {
+					if v := r.checkAround(c, st, lim, pivot, L); v != "" {
+						t.Fatalf("C09 violated (%d permanodes, sort %s, over HTTP: %v): %s", n, sortNames[st], via, v)
+					}
+				}
+			}
+		}
+		if evid.R.WantSample(true) {
+			evid.R.Sample(true, map[string]any{"kind": "large-result-paging", "permanodes": n, "page_sizes": "999, 1000, 1001 and one drawn above", "transports": "in-process and Handler.ServeHTTP"})
+		}
+	})
 }
 
 func TestPagingExactlyOnce(t *testing.T) {
